@@ -45,7 +45,7 @@ PROP = Property(
                    "ares_slist_len", "ares_llist_len", "ares_htable_num_keys",
                    "ares_llist_node_detach",  # Dsa/LList_gen_agree.v
                    # growth function, both bit-smearing bodies inlined (Dsa/Pow2_gen_agree.v)
-                   "ares_round_up_pow2", "ares_is_64bit"],
+                   "ares_round_up_pow2", "ares_is_64bit", "ares_log2"],
     extra_checks=[pow2check.check],
     rule="random/boundary-directed operation sequences per container; non-trivial = at least two state-changing operations succeeded in the model; distinct by case text",
 )
